@@ -20,7 +20,8 @@ func checkC14(c *Ctx) {
 		"processEvent snapshots prioritised and ordinary handlers under one critical section, only live handlers of the matching mode, and runs every prioritised handler before any ordinary one; delayed events are released after the triggering event's handlers, " +
 		"read and removed in one critical section and re-added in deferral order; every popped event reaches processEvent or startTicker; AddEvent runs the in-AddEvent handlers before queuing; " +
 		"the value push reports as dropped is loaded from the slot that the same call overwrites."
-	c.NotDec = "FIFO order of the ring buffer under wrap-around as a functional property of the index arithmetic (beyond the overwritten-slot rule); scheduling fairness between goroutines."
+	c.Decided += " The transition tables of queue.push/pop/len equal those of a reference ring buffer. Handler-table integrity: entries are written only by Register, a slot is occupied by a complete handler, and the release function clears its slot at most once per registration."
+	c.NotDec = "FIFO order over whole histories of the ring buffer (decided only step-wise: the transition tables of push/pop/len equal those of a reference ring buffer, C14.7); scheduling fairness between goroutines."
 	c.Expect("C14.1", 8)
 	c.Expect("C14.2", 3)
 	c.Expect("C14.8", 4)
